@@ -104,3 +104,5 @@
 (declare-fun TypesIdentical (Iface Iface) Bool)
 ; the callee expression is a method value x.m whose receiver x is evaluated when the expression is (ghost, C07/C13 side condition)
 (declare-fun BindsReceiverEarly (Iface) Bool)
+(declare-fun cursorReplace (Ref Iface World) World)
+(declare-fun cursorInsert (Ref Iface World) World)
